@@ -71,4 +71,9 @@ def loop (u : U) (level : Nat) : Nat → Nat → Nat
     | none => vk
     | some b => loop u level fuel b
 
+/-- `patchVulns` on a dependency that carries a classifier or a non-default type: "cannot fix vulns in artifacts with
+classifier or type" (ErrPatchImpossible) whenever a listed vulnerability affects it — the manifest keeps the base version -/
+def loopTyped (typed : Bool) (u : U) (level fuel vk : Nat) : Nat :=
+  if typed && !(vulnsAt u vk).isEmpty then vk else loop u level fuel vk
+
 end Scalibr.Override
